@@ -433,6 +433,64 @@ func execC12(r *kernel.Run, s C12Spec) {
 			deliver("edge:"+last+"="+vv+"@"+pp.String(), "descriptor-edge", kernel.Encode(t2))
 		}
 	})
+	// Byzantine holder: range proofs with non-conventional descriptors, built through the public
+	// API with a splitter that misreports its square count once (so that the three-squares
+	// rescaling is skipped): three squares with a = 4 and k of every residue mod 4, both signs.
+	// If such a proof is accepted, what it reports and implies must still be true.
+	for _, st := range s.Stmts {
+		m := rw.ms[st.Attr]
+		if m.BitLen() > 40 {
+			continue
+		}
+		for res := int64(0); res < 4; res++ {
+			for _, sign := range []int{1, -1} {
+				for _, slack := range []int64{0, 1, 2, 5} {
+					// choose k with k = res (mod 4) and sign*(4m-k) = delta >= 0 small
+					fourM := new(big.Int).Lsh(m, 2)
+					k := new(big.Int).Sub(fourM, big.NewInt(int64(sign)*slack))
+					for new(big.Int).Mod(k, big.NewInt(4)).Int64() != res {
+						k.Sub(k, big.NewInt(int64(sign)))
+					}
+					if k.Sign() < 0 {
+						continue
+					}
+					delta := new(big.Int).Sub(fourM, k)
+					if sign == -1 {
+						delta.Neg(delta)
+					}
+					sq := threeSquares(delta.Int64())
+					if sq == nil {
+						continue
+					}
+					id := fmt.Sprintf("byzantine-descriptor:attr%d:k%%4=%d:sign%d:slack%d", st.Attr, res, sign, slack)
+					if !wanted(s.OnlyFault, id) {
+						continue
+					}
+					stm := &rangeproof.Statement{Sign: sign, Factor: 4, Bound: k, Splitter: &lyingSplitter{sq: sq}}
+					var pl gabi.ProofList
+					var err error
+					if p := guard(func() {
+						b, e := rw.hc.Cred.CreateDisclosureProofBuilder(nil, map[int][]*rangeproof.Statement{st.Attr: {stm}}, false)
+						if e != nil {
+							err = e
+							return
+						}
+						pl, err = gabi.ProofBuilderList{b}.BuildProofList(rw.sess.Context, rw.sess.Nonce, rw.sess.IsSig)
+					}); p != "" || err != nil {
+						r.Probe("byzantine-descriptor-not-buildable")
+						continue
+					}
+					wb, merr := json.Marshal(pl)
+					if merr != nil {
+						continue
+					}
+					r.Probe("byzantine-descriptor-built")
+					deliver(id, "byzantine-descriptor", wb)
+				}
+			}
+		}
+		break
+	}
 	// range proofs of another credential (other values, same statements where provable) moved into this proof
 	other := buildOtherRangeProof(r, rw, s)
 	if other != nil {
@@ -482,4 +540,41 @@ func TestC12(t *testing.T) {
 			}
 			return s
 		}})
+}
+
+// lyingSplitter returns three given squares but claims four squares the first time it is asked,
+// which makes NewProofStructure skip the three-squares rescaling of factor and bound.
+type lyingSplitter struct {
+	sq    []*big.Int
+	asked int
+}
+
+func (l *lyingSplitter) Ld() uint { return 32 }
+func (l *lyingSplitter) SquareCount() int {
+	l.asked++
+	if l.asked == 1 {
+		return 4
+	}
+	return 3
+}
+func (l *lyingSplitter) Split(*big.Int) ([]*big.Int, error) { return l.sq, nil }
+
+// threeSquares finds a, b, c with a^2+b^2+c^2 = n for small n (nil if none).
+func threeSquares(n int64) []*big.Int {
+	if n < 0 || n > 1<<20 {
+		return nil
+	}
+	for a := int64(0); a*a <= n; a++ {
+		for b := a; a*a+b*b <= n; b++ {
+			rest := n - a*a - b*b
+			c := int64(0)
+			for c*c < rest {
+				c++
+			}
+			if c*c == rest {
+				return []*big.Int{big.NewInt(a), big.NewInt(b), big.NewInt(c)}
+			}
+		}
+	}
+	return nil
 }
